@@ -151,14 +151,14 @@ func withC06(f func(cx *Ctx) []Obligation) func(cx *Ctx) []Obligation {
 }
 
 func init() {
-	registerProp(&propDef{ID: "C03", Rules: rulesC03, Floor: 4,
-		Expl: "In CircuitFixed.Define: the 16-public-inputs refusal; every element of the public [4] array is asserted equal to a loop accumulator acc' = limb + M·acc (recurrence shape extracted from the SSA phi), whose limbs are elements [j·T,(j+1)·T) of the inner proof's public inputs (partition of all 16); the same slice element is range-checked on every path to a width w with 2^w ≤ M (injectivity: HashNoPad reduces inputs mod p, so the inner proof fixes limbs only mod p); M^T ≤ 2^128.",
-		Rule: "one obligation per clause O3.1–O3.4"})
+	registerProp(&propDef{ID: "C03", Rules: withC06(rulesC03), Floor: 20,
+		Expl: "In CircuitFixed.Define: the 16-public-inputs refusal; every element of the public [4] array is asserted equal to a loop accumulator acc' = limb + M·acc (recurrence shape extracted from the SSA phi), whose limbs are elements [j·T,(j+1)·T) of the inner proof's public inputs (partition of all 16); the same slice element is range-checked on every path to a width w with 2^w ≤ M (injectivity: HashNoPad reduces inputs mod p, so the inner proof fixes limbs only mod p); M^T ≤ 2^128. Plus C06: the width checks relied on are live in every backend configuration (dispatch, deferred drain, the chip that collects them is never copied).",
+		Rule: "one obligation per clause O3.1–O3.4, plus the C06 obligations"})
 	registerProp(&propDef{ID: "C04", Rules: rulesC04, Floor: 2,
 		Expl: "For every circuit type of the module whose Define reaches VerifierChip.Verify, the verifierData argument is definitely a field of the circuit and that field's gnark visibility (struct tag parsed like gnark's schema walker) is '-' or public, i.e. not chosen by the prover. Liveness of the key (digest absorbed first, ConstantSigmasCap is caps[0]) is decided under C11 and C12.",
 		Rule: "one obligation per circuit type reaching the verifier"})
-	registerProp(&propDef{ID: "C11", Rules: rulesC11, Floor: 12,
-		Expl: "Event-sequence analysis of the challenge derivation reachable from VerifierChip.Verify: the calls to the two transcript primitives (ObserveElement / GetChallenge) are extracted with their static call paths in control-flow order; every squeeze is identified by the challenge field that receives its result (result tagging by call path), every observation by the proof data it depends on; the collapsed sequence must equal plonky2's order; every event executes on every path inside full-range loops over the observed lists; the openings' content order (append-chain content-sequence analysis) is the reference order at both uses; ObserveElement must-stores an empty output buffer. The sponge arithmetic over arbitrary histories is not decided.",
+	registerProp(&propDef{ID: "C11", Rules: func(cx *Ctx) []Obligation { return append(rulesC11(cx), ruleNoCopy(cx, "C11", "challenger", "Chip", "it owns the sponge state and the input/output buffers of the transcript")...) }, Floor: 13,
+		Expl: "Event-sequence analysis of the challenge derivation reachable from VerifierChip.Verify: the calls to the two transcript primitives (ObserveElement / GetChallenge) are extracted with their static call paths in control-flow order; every squeeze is identified by the challenge field that receives its result (result tagging by call path), every observation by the proof data it depends on; the collapsed sequence must equal plonky2's order; every event executes on every path inside full-range loops over the observed lists; the openings' content order (append-chain content-sequence analysis) is the reference order at both uses; ObserveElement must-stores an empty output buffer; the challenger (sponge state and buffers) is never copied. The sponge arithmetic over arbitrary histories is not decided.",
 		Rule: "one obligation for the order, one per distinct event (binding/coverage), one for the openings order, one for the buffer reset"})
 	registerProp(&propDef{ID: "C01", Floor: 110, Rules: func(cx *Ctx) []Obligation {
 		obs := append(rulesC01Own(cx), rulesConfigCoverage(cx, "C01/O1.4")...)
